@@ -194,7 +194,7 @@ func c11cCases() []c11cCase {
 			return kvs
 		}
 	}
-	for _, api := range []string{"get", "scan", "batch"} {
+	for _, api := range []string{"get", "scan", "batch", "cacheregions"} { // (cacheregions: the lookup of ALL regions of a table has a reader of its own)
 		add("meta/row-key-without-any-comma", "Scan", true, api, metaRow(setRow("t")))
 		add("meta/row-key-with-one-comma", "Scan", true, api, metaRow(setRow("t,")))
 		add("meta/row-key-empty", "Scan", true, api, metaRow(setRow("")))
@@ -369,6 +369,8 @@ func TestVerifC11Client(t *testing.T) {
 							}
 						}
 						s.Close()
+					case "cacheregions":
+						err = c.CacheRegions([]byte("t"))
 					case "batch":
 						p1, _ := hrpc.NewPut(cctx, []byte("t"), []byte("a8"), vals)
 						g2, _ := hrpc.NewGet(cctx, []byte("t"), []byte("n1"))
